@@ -7,9 +7,10 @@ CONSTANTS
   Target = 60000
   InitMs <- InitNeg
   MaxEpoch = 2
+  BaseMin = 0
   K = 0
 CONSTRAINT Bound
 VIEW View
-INVARIANTS MinuteIsRoundedClock CompareAgreesWithClock Emit
+INVARIANTS MinuteIsRoundedClock CompareAgreesWithClock BigAgrees Emit
 PROPERTIES TimeNeverDecreases RoundsAdvanceWithinEpoch EpochStepsByOne RefusedChangesNothing
 CHECK_DEADLOCK FALSE
